@@ -317,6 +317,29 @@ func (f *certFam) op(a []string) string {
 				ents = append(ents, ent{hotstuff.ID(id), junkBytes(src)})
 				continue
 			}
+			if strings.HasPrefix(src, "cutA") || strings.HasPrefix(src, "cutB") {
+				// cutA<k>@<sig> / cutB<k>@<sig>: the first k bytes / the rest of the CONCATENATED bytes of a
+				// multi-signature: the same bytes split at another place
+				at := strings.IndexByte(src, '@')
+				if at < 0 {
+					return "bad-op"
+				}
+				k, err := strconv.Atoi(src[4:at])
+				whole, ok := f.sigs[src[at+1:]]
+				if err != nil || !ok || whole == nil {
+					return "bad-op"
+				}
+				wb := whole.ToBytes()
+				if k < 0 || k > len(wb) {
+					return "bad-op"
+				}
+				if src[3] == 'A' {
+					ents = append(ents, ent{hotstuff.ID(id), append([]byte{}, wb[:k]...)})
+				} else {
+					ents = append(ents, ent{hotstuff.ID(id), append([]byte{}, wb[k:]...)})
+				}
+				continue
+			}
 			idx := 0
 			if j := strings.IndexByte(src, '.'); j >= 0 {
 				idx, _ = strconv.Atoi(src[j+1:])
